@@ -2,6 +2,7 @@ package props
 
 import (
 	"fmt"
+	"go/format"
 	"os"
 	"path/filepath"
 	"strings"
@@ -26,6 +27,8 @@ type c09Case struct {
 	Channel string   `json:"channel"` // one-file | multi-p | list | stdin | p-then-list
 	File    string   `json:"file"`
 	Family  string   `json:"family"`
+
+	formatted bool // the file was put through gofmt for a second look
 }
 
 func c09Run(dir string, stdin []byte, args ...string) *run.CLIResult {
@@ -180,6 +183,18 @@ func evalC09(cs *c09Case) (sig, msg string, info c09Info) {
 		return "", "foreign:C07", info
 	}
 	if d := ref.FirstDifference(wt, gt, ref.Output); d != nil {
+		// Narrower cause: the file is not in gofmt's form (0XFF, "(error)"
+		// as a result, ...). Each run of the chain prints the file, which
+		// puts it into that form, while the combined run keeps working on
+		// the tree as parsed. With the file formatted beforehand the two
+		// agree.
+		if fm, err := format.Source([]byte(cs.File)); err == nil && string(fm) != cs.File && !cs.formatted {
+			c2 := *cs
+			c2.File, c2.formatted = string(fm), true
+			if s2, _, i2 := evalC09(&c2); s2 == "" && i2.Harness == "" {
+				return "combined-differs-from-chain:file-not-in-gofmt-form", fmt.Sprintf("(with the file formatted by gofmt beforehand the combined run and the chain agree)\nthe combined run differs from running the changes one after the other (want = chain, got = combined): %s\n%s\n--- chain result ---\n%s\n--- combined result ---\n%s", d.String(), show(), trunc(string(chainOut), 1200), trunc(string(combOut), 1200)), info
+			}
+		}
 		return "combined-differs-from-chain", fmt.Sprintf("the combined run differs from running the changes one after the other (want = chain, got = combined): %s\n%s\n--- chain result ---\n%s\n--- combined result ---\n%s", d.String(), show(), trunc(string(chainOut), 1200), trunc(string(combOut), 1200)), info
 	}
 	return "", "", info
@@ -410,6 +425,61 @@ func c09Focused(rt *rapid.T) *c09Case {
 	return cs
 }
 
+// c09Emptied: a step empties a list through an elision that stands for
+// nothing (the results of a function, the arguments of a call, the values of
+// a return, the fields of a struct); a later step is about the form without
+// that list. Applying the steps one gopatch run at a time goes through text
+// in between, where an empty list and no list are the same thing.
+func c09Emptied(rt *rapid.T) *c09Case {
+	cs := &c09Case{Family: "synthetic-emptied"}
+	var f strings.Builder
+	f.WriteString("package p\n\n")
+	n := rapid.IntRange(2, 5).Draw(rt, "nFuncs")
+	for i := 0; i < n; i++ {
+		res := rapid.SampledFrom([]string{"", " error", " (int, error)", " (n int, err error)"}).Draw(rt, fmt.Sprintf("res%d", i))
+		ret := map[string]string{"": "return", " error": "return nil", " (int, error)": "return 0, nil", " (n int, err error)": "return 0, nil", " (error)": "return nil"}[res]
+		args := rapid.SampledFrom([]string{"", "errq", "1, errq", "x, y, errq"}).Draw(rt, fmt.Sprintf("args%d", i))
+		fmt.Fprintf(&f, "func fn%d()%s {\n\tuse(%s)\n\t%s\n}\n\n", i, res, args, ret)
+	}
+	if rapid.Bool().Draw(rt, "lit") {
+		f.WriteString("var lit = func() error { return nil }\n\ntype T struct {\n\tA int\n\tErr error\n}\n\ntype I interface {\n\tM() error\n}\n")
+	}
+	literal := rapid.IntRange(0, 3).Draw(rt, "oddLiteral") == 0
+	if literal {
+		// not in gofmt's form: gofmt writes 0xFF and 1e3
+		f.WriteString("\nvar mask = 0XFF + 1E3\n")
+	}
+	cs.File = f.String()
+	emptying := []string{
+		"@@\nvar f identifier\n@@\n-func f() (..., error) {\n+func f() (...) {\n   ...\n }\n",
+		"@@\n@@\n-use(..., errq)\n+use(...)\n",
+		"@@\n@@\n-return ..., nil\n+return ...\n",
+		"@@\nvar f identifier\n@@\n-func f() (..., err error) {\n+func f() (...) {\n   ...\n }\n",
+		"@@\n@@\n-func() (..., error) {\n+func() (...) {\n   ...\n }\n",
+		"@@\nvar T identifier\n@@\n type T struct {\n   ...\n-  Err error\n }\n",
+	}
+	about := []string{
+		"@@\nvar f identifier\n@@\n-func f() {\n+func f() bool {\n   ...\n }\n",
+		"@@\n@@\n-use()\n+useNothing()\n",
+		"@@\n@@\n-return\n+return // c09\n+panic(\"c09\")\n",
+		"@@\nvar f identifier\n@@\n-func f() {\n+func f(c09ctx int) {\n   ...\n }\n",
+		"@@\n@@\n-func() {\n+func(c09 int) {\n   ...\n }\n",
+		"@@\nvar f identifier\n@@\n-func f() (...) {\n+func f() (int, ...) {\n   ...\n }\n",
+	}
+	steps := rapid.IntRange(2, 5).Draw(rt, "steps")
+	for i := 0; i < steps; i++ {
+		pool := about
+		if i == 0 || rapid.Bool().Draw(rt, fmt.Sprintf("emptying%d", i)) {
+			pool = emptying
+		}
+		cs.Changes = append(cs.Changes, rapid.SampledFrom(pool).Draw(rt, fmt.Sprintf("step%d", i)))
+	}
+	if literal {
+		cs.Changes = append(cs.Changes, rapid.SampledFrom([]string{"@@\n@@\n-0xFF\n+255\n", "@@\n@@\n-1e3\n+1000\n", "@@\n@@\n-0XFF\n+255\n"}).Draw(rt, "literalStep"))
+	}
+	return cs
+}
+
 var c09Opts = modelOpts{
 	Mine:         gen.MineOpts{MaxHoles: 2, MaxDots: 1},
 	MaxHostLines: 150,
@@ -467,8 +537,10 @@ func TestC09(t *testing.T) {
 		var cs *c09Case
 		switch rapid.IntRange(0, 3).Draw(rt, "family") {
 		case 0:
-			if rapid.Bool().Draw(rt, "focused") {
+			if k := rapid.IntRange(0, 4).Draw(rt, "synthKind"); k <= 1 {
 				cs = c09Focused(rt)
+			} else if k == 2 {
+				cs = c09Emptied(rt)
 			} else {
 				cs = c09Synthetic(rt)
 			}
